@@ -389,6 +389,7 @@ def check(run):
     check_stop_with_closed_loop(run)
     check_stop_by_supporting_coroutine(run)
     check_send_from_simulation_task(run)
+    check_abort_with_non_exception(run)
 
 
 def check_stop_by_supporting_coroutine(run):
@@ -505,6 +506,53 @@ def check_send_from_simulation_task(run):
                       f"a handler after its own abort() -> {obs['handler']}, by a block's stop() during the clean-up "
                       f"-> {obs['cleanup']} (expected {want} twice), destination output {obs['output']!r} (expected "
                       f"'initial'); harness: {obs['harness']}", clause='send_from_simulation_task', concrete=True)
+
+
+def check_abort_with_non_exception(run, only=None):
+    """'after any kind of stop ... it raises EdzedInvalidState and delivers nothing': abort() called with
+    something that is not an exception (None, a string, an exception class) is a stop request all the same."""
+    from . import vloop
+    for name, arg in (('none', None), ('string', 'stop it'), ('zero', 0), ('class', RuntimeError)):
+        if only is not None and name != only:
+            continue
+        obs = dict(abort=None, ready=None, send=None, output=None, harness=None)
+
+        async def main(loop, arg=arg, obs=obs):
+            edzed.reset_circuit()
+            circuit = edzed.get_circuit()
+            inp = edzed.Input('inp', initdef='initial')
+            ext = edzed.ExtEvent(inp, source='late')
+            task = asyncio.create_task(circuit.run_forever())
+            await circuit.wait_init()
+            try:
+                circuit.abort(arg)
+                obs['abort'] = 'returned'
+            except Exception as err:             # noqa
+                obs['abort'] = type(err).__name__
+            obs['ready'] = circuit.is_ready()
+            try:
+                obs['send'] = ['delivered', repr(ext.send('late'))]
+            except Exception as err:             # noqa
+                obs['send'] = ['refused', type(err).__name__]
+            obs['output'] = inp.output
+            await asyncio.wait([task], timeout=2.0)
+        try:
+            vloop.run_virtual(main, wall_limit_s=10.0)
+        except BaseException as err:              # noqa
+            obs['harness'] = repr(err)[:200]
+        finally:
+            edzed.reset_circuit()
+        run.add_case(dict(abort_with_non_exception=name), True)
+        run.count('abort_with_non_exception')
+        ok = (obs['harness'] is None and obs['ready'] is False and obs['send'] == ['refused', 'EdzedInvalidState']
+              and obs['output'] == 'initial')
+        run.add_obligation(ok)
+        if not ok:
+            run.violation('monitor', dict(case=dict(abort_with_non_exception=name), observed=obs),
+                          f"Circuit.abort({arg!r}) in a running circuit -> {obs['abort']}; is_ready() {obs['ready']} "
+                          f"(expected False), an external event sent right afterwards: {obs['send']} (expected "
+                          f"refused with EdzedInvalidState), destination output {obs['output']!r}; harness: "
+                          f"{obs['harness']}", clause='abort_with_non_exception:' + name, concrete=True)
 
 
 def check_stop_with_closed_loop(run):
@@ -629,6 +677,9 @@ def replay(run, path):
         return common.directed_replay(run, path, lambda: check_refused_start(run))
     if isinstance(case, dict) and 'stop_with_closed_loop' in case:
         return common.directed_replay(run, path, lambda: check_stop_with_closed_loop(run))
+    if isinstance(case, dict) and 'abort_with_non_exception' in case:
+        return common.directed_replay(run, path,
+                                      lambda: check_abort_with_non_exception(run, case['abort_with_non_exception']))
     if isinstance(case, dict) and 'send_from_simulation_task' in case:
         return common.directed_replay(run, path, lambda: check_send_from_simulation_task(run))
     if isinstance(case, dict) and 'stop_by_supporting_coroutine' in case:
